@@ -221,7 +221,7 @@ def index_sets(eng, alpha=None, only_larger=True, order=None, hide=(), nr=1, sub
     return obs
 
 
-def overlaps(eng, index_sets=False, only_larger=False):
+def overlaps(eng, index_sets=False, only_larger=False, order=None, alphas=None):
     """CAT x MR with overlap measures: the overlap-corrected test between sub-variable columns"""
     from symx.inject import SymList
     from .cellworld import NUM_META
@@ -239,6 +239,10 @@ def overlaps(eng, index_sets=False, only_larger=False):
     w.extra["overlap"] = {"data": SymList(OV.reshape(-1).tolist()), "n_missing": 0, "metadata": meta}
     w.extra["valid_overlap"] = {"data": SymList(VO.reshape(-1).tolist()), "n_missing": 0, "metadata": meta}
     tr = {"pairwise_indices": {"only_larger": only_larger}} if index_sets else None
+    if index_sets and alphas:
+        tr["pairwise_indices"]["alpha"] = list(alphas)
+    if index_sets and order:
+        tr["columns_dimension"] = {"order": {"type": "explicit", "element_ids": list(order)}}
     part = Cube(w.response(), transforms=tr).partitions[0]
     P = part.column_proportions.view(np.ndarray)
     vr = w.valid(0)
@@ -258,28 +262,32 @@ def overlaps(eng, index_sets=False, only_larger=False):
     nr = P.shape[0]
     obs = []
     if index_sets:
-        got = part.pairwise_indices
-        g = [[[int(x) for x in got[i][a]] for a in range(nit)] for i in range(nr)]
-        obs.append(Obs("pairwise_indices never contains the own column", [[a in g[i][a] for a in range(nit)] for i in range(nr)],
-                       [[False] * nit for _ in range(nr)], kind="same"))
         PV = [part.pairwise_significance_p_vals(a).view(np.ndarray) for a in range(nit)]
         TS = [part.pairwise_significance_t_stats(a).view(np.ndarray) for a in range(nit)]
-        exp = []
-        for i in range(nr):
-            row = []
-            for a in range(nit):
-                cell = []
-                for b in range(nit):
-                    if b == a:
-                        continue
-                    sig = bool(PV[a][i, b] < 0.05)
-                    if sig and only_larger:
-                        sig = bool(TS[a][i, b] < 0)
-                    if sig:
-                        cell.append(b)
-                row.append(cell)
-            exp.append(row)
-        obs.append(Obs("pairwise_indices", g, exp, kind="same"))
+        al = sorted(alphas) if alphas else [0.05]
+        for name, alpha in (("pairwise_indices", al[0]), ("pairwise_indices_alt", al[1] if len(al) > 1 else None)):
+            if alpha is None:
+                continue
+            got = getattr(part, name)
+            g = [[[int(x) for x in got[i][a]] for a in range(nit)] for i in range(nr)]
+            obs.append(Obs(name + " never contains the own column", [[a in g[i][a] for a in range(nit)] for i in range(nr)],
+                           [[False] * nit for _ in range(nr)], kind="same"))
+            exp = []
+            for i in range(nr):
+                row = []
+                for a in range(nit):
+                    cell = []
+                    for b in range(nit):
+                        if b == a:
+                            continue
+                        sig = bool(PV[a][i, b] < alpha)
+                        if sig and only_larger:
+                            sig = bool(TS[a][i, b] < 0)
+                        if sig:
+                            cell.append(b)
+                    row.append(cell)
+                exp.append(row)
+            obs.append(Obs(name, g, exp, kind="same"))
         return obs
     for a in range(nit):
         ta = part.pairwise_significance_t_stats(a).view(np.ndarray)
@@ -331,6 +339,7 @@ def specs(tier):
     add("index sets with explicit column order", "index_sets", dict(order=[2, 1], only_larger=False))
     add("index sets with hidden column", "index_sets", dict(hide=[1], alpha=[0.05, 0.2]))
     add("overlap index sets, not only larger", "overlaps", dict(index_sets=True, only_larger=False))
+    add("overlap index sets, two alphas, columns reordered", "overlaps", dict(index_sets=True, only_larger=False, order=[2, 1], alphas=[0.05, 0.2]))
     if tier == "thorough":
         add("overlap-corrected t/p diagonal and p-from-t (cat x mr)", "overlaps", dict())
         add("overlap index sets, only larger", "overlaps", dict(index_sets=True, only_larger=True))
